@@ -65,8 +65,11 @@ func tryReplay(w *World, r *OblResult, workdir string) *replayOutcome {
 	if g.fn != nil && g.unit.Strict {
 		return replayFunctional(w, r, workdir)
 	}
-	if g.fn != nil && g.fn.Pkg != nil && g.fn.Pkg.Pkg.Path() == modPath+"/internal/db" && g.unit.ErrFlow {
-		return replayFaults(w, r, workdir)
+	if g.fn != nil && g.fn.Pkg != nil && g.unit.ErrFlow {
+		switch g.fn.Pkg.Pkg.Path() {
+		case modPath + "/internal/db", modPath + "/internal/core/block", modPath + "/internal/core/crdt":
+			return replayFaults(w, r, workdir)
+		}
 	}
 	if g.fn != nil && g.fn.Pkg != nil && g.fn.Pkg.Pkg.Path() == modPath+"/internal/datastore" && hasTag(r.O.Tags, "C16") {
 		return replayRace(w, r, workdir)
@@ -114,22 +117,37 @@ func mergedOverlay(workdir string, extra map[string]string) string {
 
 func replayFaults(w *World, r *OblResult, workdir string) *replayOutcome {
 	out := filepath.Join(workdir, "c05-replay.json")
-	ov := mergedOverlay(workdir, map[string]string{w.repo + "/internal/db/zz_c05_fault_test.go": filepath.Join(verifDir, "harness/db/zz_c05_fault_test.go")})
-	cmd := exec.Command("go", "test", "-overlay", ov, "-vet=off", "-count=1", "-timeout", "240s", "-run", "^TestGovcC05Faults$", "./internal/db")
+	ov := mergedOverlay(workdir, map[string]string{
+		w.repo + "/internal/db/zz_c05_fault_test.go":     filepath.Join(verifDir, "harness/db/zz_c05_fault_test.go"),
+		w.repo + "/internal/db/zz_merge_harness_test.go": filepath.Join(verifDir, "harness/db/zz_merge_harness_test.go"),
+	})
+	cmd := exec.Command("go", "test", "-overlay", ov, "-vet=off", "-count=1", "-timeout", "240s", "-run", "^(TestGovcC05Faults|TestGovcC05MergeFaults)$", "./internal/db")
 	cmd.Dir = w.repo
 	cmd.Env = append(os.Environ(), "VERIF_C05_FUNC="+r.O.Func, "VERIF_C05_OUT="+out, "GOFLAGS=-mod=mod", "GOPROXY=off")
 	b, _ := cmd.CombinedOutput()
-	data, err := os.ReadFile(out)
-	if err != nil {
-		return &replayOutcome{Outcome: "not-attempted", Note: "fault harness did not run", Output: truncate(string(b), 4000)}
-	}
-	var res struct {
+	type result struct {
 		Scenarios  []string         `json:"scenarios"`
 		Cases      int              `json:"cases"`
 		Violations []map[string]any `json:"violations"`
 	}
-	json.Unmarshal(data, &res)
-	ro := &replayOutcome{Test: "go test -overlay … -run ^TestGovcC05Faults$ ./internal/db (VERIF_C05_FUNC=" + r.O.Func + ")"}
+	var res result
+	ran := false
+	for _, f := range []string{out, out + ".merge"} {
+		data, err := os.ReadFile(f)
+		if err != nil {
+			continue
+		}
+		ran = true
+		var one result
+		json.Unmarshal(data, &one)
+		res.Scenarios = append(res.Scenarios, one.Scenarios...)
+		res.Cases += one.Cases
+		res.Violations = append(res.Violations, one.Violations...)
+	}
+	if !ran {
+		return &replayOutcome{Outcome: "not-attempted", Note: "fault harness did not run", Output: truncate(string(b), 4000)}
+	}
+	ro := &replayOutcome{Test: "go test -overlay … -run ^(TestGovcC05Faults|TestGovcC05MergeFaults)$ ./internal/db (VERIF_C05_FUNC=" + r.O.Func + ")"}
 	if len(res.Scenarios) == 0 {
 		ro.Outcome = "not-attempted"
 		ro.Note = "no fault scenario drives " + r.O.Func
